@@ -188,17 +188,64 @@ fn strat_log(bits: usize) -> BoxedStrategy<Case> {
 }
 
 fn ilog(v: &BigUint, b: &BigUint) -> usize {
-    // floor(log_b(v)) for v >= 1, b >= 2
+    // floor(log_b(v)) for v >= 1, b >= 2: the largest k with b^k <= v, by bisection over
+    // exact powers (b >= 2^(bits(b)-1) bounds k by bits(v) / (bits(b)-1))
     if *b == BigUint::from(2u32) {
         return v.bits() as usize - 1;
     }
-    let mut k = 0;
-    let mut p = b.clone();
-    while &p <= v {
-        p *= b;
-        k += 1;
+    let (mut lo, mut hi) = (0u64, v.bits() / (b.bits() - 1) + 1);
+    while lo < hi {
+        let mid = lo + (hi - lo + 1) / 2;
+        if num_traits::Pow::pow(b, mid) <= *v {
+            lo = mid;
+        } else {
+            hi = mid - 1;
+        }
     }
-    k
+    lo as usize
+}
+
+/// Every power of a fixed set of bases that fits the width, with its two neighbours. `stride`
+/// thins the exponents of the bases 2 and 3 (which have thousands of powers at wide widths).
+fn enum_powers(bits: usize, stride: usize, f: &mut dyn FnMut(&Case) -> R) -> R {
+    let n = nlimbs(bits);
+    let two = pow2(bits);
+    let mut bases: Vec<BigUint> = [2u64, 3, 5, 7, 10, 16, 100, 255, 256, 257, 65536, u32::MAX as u64, 1 << 32, (1 << 32) + 1, u64::MAX].iter().map(|x| BigUint::from(*x)).collect();
+    bases.push(BigUint::one() << 64);
+    bases.push((BigUint::one() << 64) + 1u32);
+    for b in bases {
+        if b >= two {
+            continue;
+        }
+        let thin = if b <= BigUint::from(3u32) { stride } else { 1 };
+        let bl = limbs_of(&b, n);
+        let mut p = BigUint::one();
+        let mut k = 0usize;
+        while p < two {
+            if k % thin == 0 || &p * &b >= two {
+                for d in 0..3u8 {
+                    let v = match d {
+                        0 => p.clone(),
+                        1 => &p - 1u32,
+                        _ => (&p + 1u32) % &two,
+                    };
+                    f(&Case::new().l(limbs_of(&v, n)).l(bl.clone()).n(1))?;
+                }
+            }
+            p *= &b;
+            k += 1;
+        }
+    }
+    Ok(())
+}
+
+macro_rules! reg_powers {
+    ($jobs:expr, $stride:expr; [$($b:literal),* $(,)?]) => {
+        $( {
+            let stride: usize = $stride;
+            $jobs.fixed_list("log_all_powers", $b, move |f| enum_powers($b, stride, f), body_log::<$b, { ruint::nlimbs($b) }>);
+        } )*
+    };
 }
 
 fn body_log<const B: usize, const L: usize>(c: &Case, rec: &mut Rec) -> R {
@@ -343,7 +390,7 @@ fn main() {
     }
     let spec = PropSpec {
         id: "C13",
-        rule_text: "pow: (a,e) with a in {0,1,2,3,4,5,7,10,16,255,256,2^32, 2^k, 2^k+-1, alphabet}, e in {0..4, BITS/3, BITS/2, BITS-1, BITS, BITS+1, 0..300, 2^k, alphabet}, plus boundary pairs by construction a = floor((2^BITS-1)^(1/e)) + {0,1} for e in 2..65; log: (value, base) with value = base^k + {-1,0,1}, 2^k, alphabet and base in {small constants, 2^k+-1, alphabet, value+{-1,0,1}}; root: value = r^d + {-1,0,1}, MAX, 2^k, alphabet and degree in 1..=BITS+2 plus {0, 2^32, usize::MAX}; exhaustive for BITS <= 6 (all pairs for pow and log, all value x degree for root). Oracle: num-bigint modpow and the exact overflow predicate; integer loop for logs; validity predicate r^d <= v < (r+1)^d for roots (early exit); termination through the step-bound hook. Non-trivial: pow a,e >= 2; log value >= base >= 2; root degree >= 2 and value >= 2^degree. Distinct by inputs.",
+        rule_text: "pow: (a,e) with a in {0,1,2,3,4,5,7,10,16,255,256,2^32, 2^k, 2^k+-1, alphabet}, e in {0..4, BITS/3, BITS/2, BITS-1, BITS, BITS+1, 0..300, 2^k, alphabet}, plus boundary pairs by construction a = floor((2^BITS-1)^(1/e)) + {0,1} for e in 2..65; log: (value, base) with value = base^k + {-1,0,1}, 2^k, alphabet and base in {small constants, 2^k+-1, alphabet, value+{-1,0,1}}; root: value = r^d + {-1,0,1}, MAX, 2^k, alphabet and degree in 1..=BITS+2 plus {0, 2^32, usize::MAX}; exhaustive for BITS <= 6 (all pairs for pow and log, all value x degree for root); fixed list log_all_powers: every power b^k < 2^BITS of 17 bases (2,3,5,7,10,16,100,255,256,257,65536,2^32-1,2^32,2^32+1,2^64-1,2^64,2^64+1) with b^k-1 and b^k+1, at 21 widths up to 4096; generated rules also at 1024, 2048 and 4096 bits. Oracle: num-bigint modpow and the exact overflow predicate; integer loop for logs; validity predicate r^d <= v < (r+1)^d for roots (early exit); termination through the step-bound hook. Non-trivial: pow a,e >= 2; log value >= base >= 2; root degree >= 2 and value >= 2^degree. Distinct by inputs.",
         assumptions: vec![
             "num-bigint pow/modpow/nth_root are correct (oracle and generator)",
             "termination is decided by a 2^16 step bound in the Newton and correction loops (hook), not by wall clock",
@@ -362,6 +409,12 @@ fn main() {
             reg_gen!(jobs, "pow", 1000, strat_pow, body_pow; [1024]);
             reg_gen!(jobs, "log", 1000, strat_log, body_log; [1024]);
             reg_gen!(jobs, "root", 1000, strat_root, body_root; [1024]);
+            reg_gen!(jobs, "pow", 300, strat_pow, body_pow; [2048, 4096]);
+            reg_gen!(jobs, "log", 300, strat_log, body_log; [2048, 4096]);
+            reg_gen!(jobs, "root", 300, strat_root, body_root; [2048, 4096]);
+            // every power of 17 fixed bases (and its neighbours) at a spread of widths, including
+            // two far above the float-estimate range of the logarithm
+            reg_powers!(jobs, 1; [7, 8, 16, 32, 63, 64, 65, 100, 127, 128, 129, 192, 255, 256, 257, 320, 512, 535, 1024, 2048, 4096]);
         },
         |_| Map::new(),
     );
